@@ -13,7 +13,13 @@ pub struct Clock {
     pub root_sorts: u32,          // root level sorts seen (= iterations started)
     pub queries_at_cap: Option<u64>,
     pub forced: bool,
+    pub after_expiry: u64,        // consultations answered "out of time" so far
+    pub runaway: bool,            // the search kept consulting the clock long after it had run out
 }
+
+/// a search that has been told "out of time" this often and still goes on does not stop by itself:
+/// the harness run is ended by a panic (flag `runaway`) instead of never returning
+pub const RUNAWAY_LIMIT: u64 = 50_000;
 
 thread_local! {
     static CLOCK: RefCell<Option<Clock>> = RefCell::new(None);
@@ -30,6 +36,8 @@ pub fn clock_install(expiry: Option<u64>, root_cap: Option<u32>) {
             root_sorts: 0,
             queries_at_cap: None,
             forced: false,
+            after_expiry: 0,
+            runaway: false,
         })
     });
 }
@@ -47,7 +55,15 @@ pub fn clock_query() -> Option<bool> {
             Some(clock) => {
                 let q = clock.queries;
                 clock.queries += 1;
-                Some(clock.forced || clock.expiry.map_or(false, |k| q >= k))
+                let out = clock.forced || clock.expiry.map_or(false, |k| q >= k);
+                if out {
+                    clock.after_expiry += 1;
+                    if clock.after_expiry > RUNAWAY_LIMIT {
+                        clock.runaway = true;
+                        panic!("verif: the search still consults the clock after {} answers 'out of time'", RUNAWAY_LIMIT);
+                    }
+                }
+                Some(out)
             }
         }
     })
